@@ -4,10 +4,14 @@ S=$1; shift
 P=/verif/seeded/$S/patch.diff
 cd /repo || exit 2
 if ! git diff --quiet; then echo "repo dirty"; exit 2; fi
-if ! git apply --check $P 2>/dev/null; then
-  if git apply --check -3 $P 2>/dev/null || git apply --3way --check $P 2>/dev/null; then :; else echo "SEED $S: patch does not apply"; exit 3; fi
+if git apply --check $P 2>/dev/null; then
+  git apply $P
+elif git apply --3way $P >/dev/null 2>&1 && [ -z "$(git diff --name-only --diff-filter=U)" ]; then
+  git reset -q   # keep the merged working tree, drop the index changes
+else
+  git reset -q --hard HEAD
+  echo "SEED $S: patch does not apply"; exit 3
 fi
-git apply $P 2>/dev/null || git apply --3way $P
 PROPS="$@"
 [ -z "$PROPS" ] && PROPS=$(python3 -c "import json;print(json.load(open('/verif/seeded/$S/meta.json')).get('property','${S:0:3}'))")
 for p in $PROPS; do
@@ -15,4 +19,4 @@ for p in $PROPS; do
   echo "SEED $S prop $p exit=$rc"
   echo "$out" | grep -E "^(VIOLATION|UNDECIDED)" | cut -c1-260 | head -8
 done
-cd /repo; git checkout -q -- . ; git status --short | head -3
+cd /repo; git reset -q --hard HEAD; git status --short | head -3
